@@ -61,6 +61,8 @@ def asm_spec(force_plenum=False, auto_targets_only=False):
             "nPlenum": st.integers(1, 2) if force_plenum else st.integers(0, 2),
             "aclp": st.booleans(),
             "nDuct": st.integers(0, 1),
+            # handling-socket plate: a HoledHexagon (subclass of Hexagon) directly above a block with a Hexagon duct
+            "nSocket": st.integers(0, 1),
             # short blocks (1-3 cm) and tall columns (60-150 cm) are over-weighted
             "heights": st.lists(st.one_of(st.floats(1.0, 150.0), st.floats(1.0, 3.0), st.floats(60.0, 150.0)).map(_r),
                                 min_size=1, max_size=MAX_BLOCKS),
@@ -99,7 +101,7 @@ def block_kinds(spec):
     plen = ["plenum"] * spec["nPlenum"]
     if spec["aclp"] and len(plen) == 2:
         plen[1] = "aclp plenum"
-    kinds += plen + ["duct"] * spec["nDuct"]
+    kinds += plen + ["duct"] * spec["nDuct"] + ["handling socket"] * spec.get("nSocket", 0)
     return kinds
 
 
@@ -153,6 +155,14 @@ def layout(spec):
             comps.append(hexa("duct", m["duct"], d["ip"], d["op"]))
             comps.append(hexa("intercoolant", "Sodium", d["op"], d["pitch"], solid=False))
             auto = "shield"
+        elif kind == "handling socket":
+            # identical-type rule: the plate's class derives from the duct's class below, overlapping footprint, NOT linked
+            comps.append({"name": "handling socket", "shape": "HoledHexagon", "material": m["duct"], "mult": 1.0, "inner": 0.0,
+                          "outer": d["op"], "solid": True,
+                          "dims": {"op": d["op"], "holeOD": _r(d["op"] / 5.0, 4), "nHoles": 7, "mult": 1.0}})
+            comps.append(coolant())
+            comps.append(hexa("intercoolant", "Sodium", d["op"], d["pitch"], solid=False))
+            auto = "handling socket"
         elif kind == "duct":
             comps.append(coolant())
             comps.append(hexa("duct", m["duct"], d["ip"], d["op"]))
@@ -190,7 +200,7 @@ def layout(spec):
                 c["Thot"] = T
             else:
                 c["Thot"] = _r({"fuel": T + 130.0, "control": T + 60.0, "shield": T + 10.0, "clad": T + 20.0, "wire": T,
-                                "duct": max(0.0, T - 15.0), "grid": T}.get(c["name"], T), 1)
+                                "duct": max(0.0, T - 15.0), "grid": T, "handling socket": max(0.0, T - 15.0)}.get(c["name"], T), 1)
         blocks.append(
             {
                 "kind": kind,
@@ -246,9 +256,9 @@ def model_links(blocks):
 def _mk_component(c, tin=25.0):
     from armi.reactor.components import DerivedShape
     from armi.reactor.components.basicShapes import Circle, Hexagon
-    from armi.reactor.components.complexShapes import Helix
+    from armi.reactor.components.complexShapes import Helix, HoledHexagon
 
-    cls = {"Circle": Circle, "Hexagon": Hexagon, "Helix": Helix, "DerivedShape": DerivedShape}[c["shape"]]
+    cls = {"Circle": Circle, "Hexagon": Hexagon, "Helix": Helix, "DerivedShape": DerivedShape, "HoledHexagon": HoledHexagon}[c["shape"]]
     return cls(c["name"], c["material"], Tinput=tin, Thot=c["Thot"], **c["dims"])
 
 
